@@ -105,7 +105,8 @@ CLAIMS = {
                    "matrix-entry cache returns what a recomputation would. BOUNDED (deciding): both configurations run on the same data and refinement history, "
                    "surpluses/scheme/densities equal to 1e-9; right-hand-side reuse, data bins, size threshold."),
     "C18": bounded("numpy/sklearn-based bookkeeping mostly outside the verified subset (PROVED kernel: split_pieces cuts samples and labels at the same index, prefix/suffix, "
-                   "nothing lost); BOUNDED (deciding): random operation sequences (<=8 ops over 14 operations) on data sets incl. empty, single, ties, "
+                   "nothing lost; DataSet.concatenate: the result holds the receiver's rows followed by the argument's with labels attached and the receiver's scaling attributes, inputs untouched, "
+                   "a refusal leaves both sets untouched -- its clause 'different scalings are refused' is REFUTED on the pinned tree (known finding, replayed natively)); BOUNDED (deciding): random operation sequences (<=8 ops over 14 operations) on data sets incl. empty, single, ties, "
                    "unlabelled: range ends, revert restores, multiset of (sample,label) preserved, attributes carried, refusals without modification."),
     "C19": bounded("PROVED kernel (any number of samples): Classification._evaluate reports wrong == number of positions where assigned class and true label differ, "
                    "total == number of classified samples, percentage == 1 - wrong/total, and refuses only when the two lengths differ. "
